@@ -26,30 +26,35 @@ EW1 == {Bn(k, l, r) : k \in {"add", "sub", "mul"}, l \in WithD, r \in WithD}
 Mix == {Bn(k, l, r) : k \in {"add", "sub", "mul"}, l \in LazyAtoms, r \in WithD \cup EW1}
        \cup {Bn(k, l, r) : k \in {"add", "sub", "mul"}, l \in WithD \cup EW1, r \in LazyAtoms}
        \cup {Bn(k, l, r) : k \in {"add", "sub"}, l \in LazyAtoms, r \in LazyAtoms}
-Trees == LazyAtoms \cup Mix
+\* an arithmetic scalar on either side of a lazy node (the scalar overloads of the staged assignment)
+S2 == [k |-> "s", v |-> 2]
+SMix == {Bn(k, S2, r) : k \in {"add", "sub", "mul"}, r \in LazyAtoms} \cup {Bn(k, l, S2) : k \in {"add", "sub", "mul"}, l \in LazyAtoms}
+        \cup {Bn("sub", S2, Bn("add", Bn("mm", Lf("A"), Lf("B")), Lf("C"))), Bn("sub", S2, Bn("sub", Lf("D"), Un("trans", Lf("B"))))}
+Trees == LazyAtoms \cup Mix \cup SMix
 RECURSIVE TH(_)
 Names == <<"A", "B", "C", "D", "U">>
 Kinds == <<"add", "sub", "mul", "mm", "trans", "inv", "adj", "cof", "sdet", "strace">>
 TH(e) == CASE e.k = "t" -> (CHOOSE i \in 1..5 : Names[i] = e.n)
+           [] e.k = "s" -> 6
            [] e.k \in {"trans", "inv", "adj", "cof"} -> (TH(e.x) * 31 + (CHOOSE i \in 1..10 : Kinds[i] = e.k)) % 100003
            [] e.k \in {"sdet", "strace"} -> (TH(e.x) * 37 + TH(e.y) * 11 + (CHOOSE i \in 1..10 : Kinds[i] = e.k)) % 100003
            [] OTHER -> (TH(e.l) * 131 + TH(e.r) * 17 + (CHOOSE i \in 1..10 : Kinds[i] = e.k)) % 100003
 Xs == <<"set", "add", "sub", "mul">>
 \* sample trees first (aliased trees four times as often), then cross with the operators and destination kinds; n and the element
 \* type are picked per case by hash
-KeepTree(e) == LET h == (TH(e) * 7 + Seed) % 9973 IN IF Alias(e) THEN h % Quota = 0 ELSE h % (Quota * 4) = 0
+KeepTree(e) == LET h == (TH(e) * 7 + Seed) % 9973 IN IF e \in SMix THEN h % 3 = 0 ELSE IF Alias(e) THEN h % Quota = 0 ELSE h % (Quota * 4) = 0
 Kept == {e \in Trees : KeepTree(e)} \cup {e \in LazyAtoms : (TH(e) + Seed) % 3 = 0}
 \* forms that do not compile in any configuration (not offered):
 \*  - a TensorMap destination with a % node (matmul_dispatcher only accepts a Tensor destination)
 \*  - += / -= of a sum one of whose terms is scalar*tensor (det(.)*X, trace(.)*X): does_alias() calls .self() on the scalar
 RECURSIVE HasKind(_, _)
-HasKind(e, ks) == e.k \in ks \/ (CASE e.k = "t" -> FALSE
+HasKind(e, ks) == e.k \in ks \/ (CASE e.k \in {"t", "s"} -> FALSE
                                     [] e.k \in {"add", "sub", "mul", "mm"} -> HasKind(e.l, ks) \/ HasKind(e.r, ks)
                                     [] e.k \in {"sdet", "strace"} -> HasKind(e.x, ks) \/ HasKind(e.y, ks)
                                     [] OTHER -> HasKind(e.x, ks))
 \*  - += / -= of a sum whose right operand contains inv / adj / cof (no does_alias overload for those nodes; Trans has one)
 RECURSIVE NoAliasFn(_)
-NoAliasFn(e) == e.k \in {"add", "sub"} /\ Req(e) /\
+NoAliasFn(e) == e.k \in {"add", "sub"} /\ Req(e) /\ e.l.k # "s" /\        \* (a scalar left operand takes the scalar overloads: offered)
                 (HasKind(e.r, {"inv", "adj", "cof", "sdet", "strace"}) \/ NoAliasFn(e.l) \/ NoAliasFn(e.r))
 Offered(v) == /\ (v.dest = "map" => ~HasKind(v.tree, {"mm", "inv", "adj", "cof"}))      \* the inv/adj/cof dispatchers also want a Tensor destination
               /\ (v.x \in {"add", "sub"} => ~NoAliasFn(v.tree))
@@ -70,7 +75,7 @@ Env2 == [A |-> <<1, 2, 3, 5>>, B |-> <<2, -1, 1, 3>>, C |-> <<0, 1, -2, 1>>, D |
 IsChain == "chain" \in DOMAIN c
 InDomainOK == IsChain \/ Dom(c.tree, Env2, 2)
 RECURSIVE DOnlyElementwise(_)
-DOnlyElementwise(t) == CASE t.k = "t" -> TRUE
+DOnlyElementwise(t) == CASE t.k \in {"t", "s"} -> TRUE
                          [] t.k \in {"add", "sub", "mul"} -> DOnlyElementwise(t.l) /\ DOnlyElementwise(t.r)
                          [] OTHER -> ~Alias(t)
 PropertyDomainOK == IsChain \/ DOnlyElementwise(c.tree)
